@@ -19,6 +19,7 @@ func init() {
 	vrt.Register("C07_falsy_shadows_truthy", FalsyShadowsTruthy)
 	vrt.Register("C07_truthiness_routes", TruthinessRoutes)
 	vrt.Register("C07_truthiness_rebinding", TruthinessRebinding)
+	vrt.Register("C07_truthiness_after_assignment", TruthinessAfterAssignment)
 }
 
 type T struct{ N int }
@@ -492,5 +493,53 @@ func TruthinessRebinding() {
 	vrt.Note("got", got)
 	vrt.Assert(err == nil, "testing a name that is bound to other values in turn renders")
 	vrt.Assert(got == want, "a test reflects the value the name is bound to at that moment")
+	vrt.Cover("done")
+}
+
+// ---- a variable of an enclosing scope is read, assigned and tested again inside a
+// function body (a partial, a helper block): whichever scope the assignment
+// writes to, the scope that made it tests the new value, by every route
+func TruthinessAfterAssignment() {
+	x := vrt.Int()
+	lits := []string{"nil", "x", "\"\"", "\"s\"", "false", "true", "0", "[]"}
+	truth := []bool{false, true, false, true, false, true, true, true}
+	a, b := vrt.Choice(len(lits)), vrt.Choice(len(lits))
+	ctx := plush.NewContext()
+	ctx.Set("x", x)
+	ctx.Set("blk", blk)
+	routes := []string{
+		"if (v) { return \"T\" } else if (!v) { return \"F\" }\n return \"C\"",
+		"if (!v) { return \"F\" }\n return \"T\"",
+		"if (v && true) { return \"T\" }\n return \"F\"",
+		"if (v || false) { return \"T\" }\n return \"F\"",
+		"if (false) { return \"C\" } else if (v) { return \"T\" }\n return \"F\"",
+	}
+	route := routes[vrt.Choice(len(routes))]
+	reads := []string{"if (v) { let w = 1 }\n", "let w = v\n", "if (!v) { let w = 1 }\n", ""}
+	read := reads[vrt.Choice(len(reads))]
+	var in string
+	switch vrt.Choice(3) {
+	case 0:
+		in = "<% let v = " + lits[a] + " %><% let f = fn() { " + read + "v = " + lits[b] + "\n " + route + " } %><%= f() %>"
+	case 1: // the function is entered twice: what the first call left behind must not decide the second
+		in = "<% let v = " + lits[a] + " %><% let f = fn(n) { " + read + "v = n\n " + route + " } %><% f(" + lits[a] + ") %><%= f(" + lits[b] + ") %>"
+	default: // one level further down: a function called from a function
+		in = "<% let v = " + lits[a] + " %><% let g = fn() { " + read + "v = " + lits[b] + "\n " + route + " } %><% let f = fn() { " + read + "return g() } %><%= f() %>"
+	}
+	vrt.Note("input", in)
+	got, err := plush.Render(in, ctx)
+	vrt.Note("got", got)
+	want := "F"
+	if truth[b] {
+		want = "T"
+	}
+	if (lits[a] == "nil" || lits[b] == "nil") && err != nil {
+		// a name bound to nil counts as not bound in plush (pinned by its suite): assigning to
+		// it, or reading it as a value afterwards, may be refused
+		vrt.Cover("done")
+		return
+	}
+	vrt.Assert(err == nil, "reading, assigning and testing a variable of an enclosing scope in a function renders")
+	vrt.Assert(got == want, "after an assignment the scope that made it tests the new value, by every route")
 	vrt.Cover("done")
 }
